@@ -159,6 +159,26 @@ def run(ctx):
                       'the neighbourhood ordering key is %s, not a squared distance' % ke)
     else:
         ctx.undecided('C05.D1', gt, 'dense record not typed')
+    # K2: an explicit threshold of 0 is a request, not "no request": the default may replace None only
+    fb = repo.lookup_method(cls, '_find_best_channels')
+    tp = fb.params[2] if len(fb.params) > 2 else 'amplitude_threshold'
+    subst = [a for a in fb.nodes(ast.Assign) if unparse(a.targets[0]) == tp]
+    for a in subst:
+        v = a.value
+        if isinstance(v, ast.BoolOp) and isinstance(v.op, ast.Or) and unparse(v.values[0]) == tp:
+            ctx.violated('C05.K2', fb, a, '`%s` replaces every FALSY threshold by the model default: an explicit threshold of 0 (keep all neighbouring channels) is ignored '
+                         'when the model default is not 0' % unparse(a))
+        elif isinstance(v, ast.IfExp) and q.simple_compare(v.test) and q.simple_compare(v.test)[1] in ('is not', 'is') and const_value(q.simple_compare(v.test)[2]) is None:
+            ctx.holds('C05.K2', fb, 'the model default replaces the threshold only when none (None) is given; 0 is honoured', a)
+        else:
+            ctx.undecided('C05.K2', fb, 'default substitution `%s` not recognised' % unparse(a), a)
+    for i in fb.nodes(ast.If):
+        t = unparse(i.test).replace(' ', '')
+        if t == 'not%s' % tp and any(isinstance(x, ast.Assign) and unparse(x.targets[0]) == tp for x in i.body):
+            ctx.violated('C05.K2', fb, i, '`if not %s:` replaces an explicit threshold of 0 by the model default' % tp)
+    fwd = [c for c in repo.lookup_method(cls, '_get_template_dense').calls() if q.method_name(c) == '_find_best_channels']
+    ctx.check(bool(fwd) and q.kwarg(fwd[0], 'amplitude_threshold') is not None and unparse(q.kwarg(fwd[0], 'amplitude_threshold')) == 'amplitude_threshold', 'C05.K2',
+              repo.lookup_method(cls, '_get_template_dense'), fwd[0] if fwd else '_get_template_dense', "the caller's threshold is forwarded unchanged", "the caller's threshold is not forwarded to _find_best_channels")
     # get_closest_channels details: distance to the given channel, first n
     gc = repo.func(M, 'get_closest_channels')
     S = Shape(repo, inline_depth=2)
